@@ -698,7 +698,7 @@ class Paths:
         except Exception:
             return False
 
-    def _inline_fn(self, g, args, gargs, depth):
+    def _inline_fn(self, g, args, gargs, depth, seed=None):
         gnames = [x["name"] for x in g.generics]
         gmap = {gnames[i]: a for i, a in enumerate(gargs) if i < len(gnames)}
 
@@ -725,7 +725,7 @@ class Paths:
                 return ("call", path, ng) + tuple(n[3:])
             return None
         out = []
-        for s in self.of(g, depth + 1):
+        for s in self.of(g, depth + 1, seed=seed):
             facts, effects, ret = self._rebind(s, r)
             # a condition of the callee on a value the caller has just constructed is decided here: the case is
             # dropped (contradiction) or the condition discharged
@@ -1100,6 +1100,29 @@ class Paths:
         if g is not None and depth < self.depth and self._may_inline(g):
             try:
                 return self._inline_fn(g, [raw(i) for i in range(len(args))], key[2] if g.path == path else (), depth)
+            except HasLoop:
+                # the helper loops — over a slice parameter that this call binds to a literal array?  Summarise it for
+                # this binding (the loop unrolls over the known elements, A.9)
+                seed = {}
+                po_ = Origins(g)
+                for i_ in range(len(args)):
+                    a_ = strip_refs(raw(i_))
+                    while a_[0] == "cast":
+                        a_ = strip_refs(a_[1])
+                    if a_[0] == "agg" and a_[1] == "array" and len(a_[2]) <= 8:
+                        # in the callee's own terms: an array literal of the parameter's elements (the caller's values are
+                        # substituted when the summary is rebound, `[..][k]` then reads through to element k)
+                        pn_ = po_._entry(i_ + 1, ())
+                        is_ref_ = raw(i_)[0] == "ref" or (isinstance(g.body["locals"][i_ + 1]["ty"], dict) and "ref" in g.body["locals"][i_ + 1]["ty"])
+                        base_ = ("deref", pn_) if is_ref_ else pn_
+                        arr_ = ("agg", "array", tuple(("index", base_, ("const", k_)) for k_ in range(len(a_[2]))))
+                        seed[pn_] = ("ref", arr_) if is_ref_ else arr_
+                if not seed:
+                    return None
+                try:
+                    return self._inline_fn(g, [raw(i) for i in range(len(args))], key[2] if g.path == path else (), depth, seed=seed)
+                except Unsupported:
+                    return None
             except Unsupported:
                 return None
         return None
